@@ -25,6 +25,7 @@ pub struct Rule {
 }
 
 #[derive(Debug, Clone)]
+#[allow(dead_code)]
 pub struct MacroDef {
     pub name: String,
     pub file: String,
